@@ -24,9 +24,30 @@ type Case struct {
 	Events  []et.Event `json:"events"` // may contain garbage rows
 	Pauses  []int      `json:"pauses"`
 	Barrier bool       `json:"barrier"` // late-update mode: wait for due firings before each late row
+	// Idle: a busy source whose timestamps do not advance must not be judged idle (IDLETIMEOUT): real-time case
+	Idle bool `json:"idle,omitempty"`
+}
+
+func genIdle(t *rapid.T) Case {
+	c := Case{Kind: "tumbling", SizeMs: 1000, OOOMs: 200, Groups: rapid.IntRange(0, 2).Draw(t, "igroups"), Idle: true}
+	n := rapid.IntRange(40, 70).Draw(t, "in")
+	base := et.Base
+	c.Events = append(c.Events, et.Event{ID: 0, TS: base + 900, V: 1, G: "g1"})
+	for i := 1; i < n; i++ {
+		e := et.Event{ID: i, TS: base + 700 + int64(rapid.IntRange(0, 190).Draw(t, "its")), V: 1, G: "g1"}
+		if c.Groups > 1 && rapid.Bool().Draw(t, "ig") {
+			e.G = "g2"
+		}
+		c.Events = append(c.Events, e)
+		c.Pauses = append(c.Pauses, 0)
+	}
+	return c
 }
 
 func genCase(t *rapid.T) Case {
+	if rapid.IntRange(0, 199).Draw(t, "idlemode") == 0 {
+		return genIdle(t)
+	}
 	c := Case{Kind: rapid.SampledFrom([]string{"tumbling", "tumbling", "sliding", "session"}).Draw(t, "kind")}
 	switch c.Kind {
 	case "tumbling":
@@ -338,7 +359,62 @@ func canonAccepted(c Case, rows []drow, late map[int]bool) string {
 	return strings.Join(parts, " ")
 }
 
+// runIdle: IDLETIMEOUT 1.5 s, rows every ~30 ms for about 2 s whose timestamps never exceed the first one: the source
+// is busy, so no window may fire (no row reaches window_end + OOO, and the idle timeout never elapses). Wall-clock
+// facts are used conservatively: a delivery counts only if every gap between consecutive emits before it was
+// below a third of the idle timeout.
+func runIdle(c Case) (res pbt.Result) {
+	g := ""
+	if c.Groups > 0 {
+		g = "g, "
+	}
+	q := fmt.Sprintf("SELECT %scount(*) AS c, collect(id) AS ids, window_start() AS ws, window_end() AS we FROM stream GROUP BY %sTumblingWindow('%dms') WITH (TIMESTAMP='ts', TIMEUNIT='ms', MAXOUTOFORDERNESS='%dms', IDLETIMEOUT='1500ms')", g, g, c.SizeMs, c.OOOMs)
+	in, err := run.Open(q)
+	if err != nil {
+		res.Add(pbt.D("execute-error", "%v for %s", err, q))
+		return
+	}
+	defer in.Stop()
+	var emits []time.Time
+	for _, e := range c.Events {
+		in.Emit(et.Row(e, "ms", "int64", c.Groups > 0))
+		emits = append(emits, time.Now())
+		time.Sleep(30 * time.Millisecond)
+	}
+	end := time.Now()
+	for _, d := range in.Deliveries() {
+		if d.At.After(end) {
+			continue
+		}
+		maxGap := time.Duration(0)
+		last := emits[0]
+		for _, e := range emits[1:] {
+			if e.After(d.At) {
+				break
+			}
+			if gp := e.Sub(last); gp > maxGap {
+				maxGap = gp
+			}
+			last = e
+		}
+		if gp := d.At.Sub(last); gp > maxGap {
+			maxGap = gp
+		}
+		if maxGap < 500*time.Millisecond {
+			res.Add(pbt.D("early-firing-idle", "a window was delivered %v after the first row while rows kept arriving (largest gap between rows %v, IDLETIMEOUT 1.5 s) and no row had reached window_end + MAXOUTOFORDERNESS: %v", d.At.Sub(emits[0]).Round(time.Millisecond), maxGap.Round(time.Millisecond), d.Rows))
+		} else {
+			res.Class("idle-inconclusive")
+		}
+	}
+	res.Class("idle-busy-source")
+	res.NonTrivial = true
+	return
+}
+
 func runCase(c Case) (res pbt.Result) {
+	if c.Idle {
+		return runIdle(c)
+	}
 	out := feed(c, c.Events, c.Pauses, &res)
 	if !out.ok {
 		return
